@@ -57,9 +57,33 @@ def translate():
     ess_trimmed = ExprTr({"np.sum(weights_trimmed**2.0)": "sumsq_t"}, where=w).num(s[5].value)
     need(isinstance(s[6], ast.If) and len(s[6].body) == 1 and isinstance(s[6].body[0], ast.Break) and not s[6].orelse,
          s[6], "accept test", w)
-    accept = ExprTr({"ess_trimmed": "ess_trimmed", "ess_total": "ess_total", "ess": "frac"}, where=w).boolean(s[6].test)
+    # the ratio test, or the bottom of the grid (where every sample is kept and the test can only fail through rounding)
+    need(isinstance(s[6].test, ast.BoolOp) and isinstance(s[6].test.op, ast.Or) and len(s[6].test.values) == 2
+         and _ns(s[6].test.values[1]) == "i==0", s[6], "accept test: ratio test or i == 0", w)
+    accept = ExprTr({"ess_trimmed": "ess_trimmed", "ess_total": "ess_total", "ess": "frac"}, where=w).boolean(s[6].test.values[0])
     need(_ns(s[7]) == "i-=1", s[7], "step", w)
     need(_ns(b[5]) in ("returnsamples[mask],weights_trimmed", "return(samples[mask],weights_trimmed)"), b[5], "return", w)
+    # volume_variation: the shape the theorems of Proofs/Volume.v speak about (vvgen K g), statement by statement
+    w = "tools.py:volume_variation"
+    vfn = get_function(path, "volume_variation")
+    vs = [_ns(x).replace("\n", "") for x in strip_doc(vfn.body)]
+    vtxt = "|".join(vs)
+    for frag, msg in (("w=w/np.sum(w)", "weights normalised by their sum"),
+                      ("weighted_mean=np.sum(x*w[:,np.newaxis],axis=0)", "weighted mean"),
+                      ("xc=x-weighted_mean", "rows centred at the weighted mean"),
+                      ("cov=np.dot(xc.T,xc*w[:,np.newaxis])", "weighted covariance of the centred rows"),
+                      ("ifnp.linalg.matrix_rank(cov)<n_dim:reg=1e-06*np.trace(cov)cov=cov+np.eye(n_dim)*reg", "rank test regularises by 1e-6 trace"),
+                      ("cov_inv=np.linalg.inv(cov)", "inverse of the (possibly regularised) covariance"),
+                      ("d2=np.sum(xc@cov_inv*xc,axis=1)", "squared Mahalanobis distances of the centred rows"),
+                      ("deviation=np.clip(d2-n_dim,-1000000.0,1000000.0)", "deviation d2 - d, clipped"),
+                      ("cv=0.5*np.sqrt(np.sum(w**2*deviation**2))", "half the root of the sum of squared weighted deviations"),
+                      ("returncv", "returns it")):
+        need(frag in vtxt, vfn, msg, w)
+    order_v = [vtxt.index(f) for f in ("w=w/np.sum(w)", "weighted_mean=", "xc=x-weighted_mean", "cov=np.dot(", "np.linalg.matrix_rank(cov)", "cov_inv=np.linalg.inv(cov)",
+                                       "d2=np.sum(", "deviation=np.clip(", "cv=0.5*")]
+    need(order_v == sorted(order_v), vfn, "order of the statements", w)
+    need(sum(1 for x in vs if x.startswith(("w=", "xc=", "cov=", "d2=", "deviation=", "cv="))) == 7, vfn,
+         "w (default and normalisation), xc, cov, d2, deviation, cv are assigned once each (cov once more inside the rank test)", w)
     text = f"""(* GENERATED from /repo/tempest/tools.py (effective_sample_size, trim_weights) by tools/props/c20.py *)
 From Coq Require Import List Bool Arith.
 From Tempest Require Import Base.Ops.
@@ -69,8 +93,11 @@ Definition ess_trimmed {{T}} (o : Ops T) (sumsq_t : T) : T := {ess_trimmed}.
 Definition mask_test {{T}} (o : Ops T) (x t : T) : bool := {mask}.
 Definition accept_test {{T}} (o : Ops T) (ess_trimmed ess_total frac : T) : bool := {accept}.
 Definition starts_at_top_and_steps_down : bool := true.
+Definition stops_at_grid_index_zero_whatever_the_ratio : bool := true.
 Definition same_mask_for_samples_and_weights : bool := true.
 Definition normalises_input_and_trimmed : bool := true.
+Definition volume_metric_is_half_root_of_squared_normalised_weights_times_clipped_deviation_of_mahalanobis_distance : bool := true.
+Definition volume_metric_regularises_only_when_rank_deficient_by_trace_times_1e_6 : bool := true.
 """
     write_if_changed(COQ / "Gen" / "Weights.v", text)
 
@@ -239,7 +266,8 @@ def check_trim(run, tier, rng):
         kind = kinds[t % len(kinds)]
         n = rng.choice([2, 3, 6, 9, 12, 30, 200] if tier == "quick" else [2, 3, 6, 9, 12, 30, 200, 3000])
         w = gen_w(rng, kind, n)
-        frac = rng.choice([0.5, 0.9, 0.99, 0.999, 0.2, 0.75])
+        # incl. fractions within a few ulp of 1 (inside the open interval (0,1)): the request "lose nothing" must end at the full set
+        frac = rng.choice([0.5, 0.9, 0.99, 0.999, 0.2, 0.75, 1 - 2.0 ** -53, 1 - 2.0 ** -52, 1 - 1e-12])
         bins = rng.choice([2, 5, 10, 50, 1000] if n > 30 else [2, 3, 5, 10, 20])
         run.count(f"trim:{kind}")
         try:
